@@ -1056,6 +1056,25 @@ class NPG:
                 return NPG.sqrt(sq)
             raise Unsupported("linalg.norm")
 
+        @staticmethod
+        def det(x):
+            """determinant of the trailing (3,3) / (2,2) matrices of a batch: cofactor expansion (a polynomial term per row)"""
+            if not isinstance(x, G) or x.bax != 0 or x.tshape not in ((3, 3), (2, 2)):
+                raise Unsupported("linalg.det of this shape")
+
+            def d(b):
+                m = [[asreal(b[i, j]) for j in range(b.shape[1])] for i in range(b.shape[0])]
+                if len(m) == 2:
+                    t = m[0][0] * m[1][1] - m[0][1] * m[1][0]
+                else:
+                    t = (m[0][0] * (m[1][1] * m[2][2] - m[1][2] * m[2][1]) - m[0][1] * (m[1][0] * m[2][2] - m[1][2] * m[2][0])
+                         + m[0][2] * (m[1][0] * m[2][1] - m[1][1] * m[2][0]))
+                out = np.empty((), dtype=object)
+                out[()] = t
+                return out
+
+            return G([d(b) for b in x.blocks], 0, x.tag, x.layout)
+
 
 
 def _obj_terms(ts):
